@@ -189,6 +189,11 @@ def run_all(chk, fsets, tier):
         chk.rule("W6.content", floor=60 if i == 0 else 0,
                  doc="bit-sequence domain: with P the pending bits and F the field appended by the call (write_bits: value[0..n); write_unary: v zeros and a one; flush: zero padding), every word handed to the backend is exactly the next W bits of P ++ F in stream order (BE from the top, LE from the bottom) and the buffer keeps exactly the rest where the next call expects it; W in {8..128}, all paths, loops unrolled (write_bits) or summarised (write_unary)")
         rules_seq.run_parallel(chk, F, fs, [("writer", "W6.content", nm) for nm in ("write_bits", "write_unary", "flush")])
+    # what the writer's argument assumes about the word sinks it delivers to (same image "for every backend kind")
+    import deps
+    F0 = facts.load(fsets[0])
+    deps.backends(chk, F0, tier, ("K.write_word",), "W7.sink", "the in-memory sinks store each delivered word at the cursor and advance (C13)")
+    deps.adapter(chk, F0, tier, ("A1.counts", "A2.errors", "A3.byteorder"), "W7.sink", "the byte-stream sink transfers every byte of every delivered word, in order (C11)")
     if "checks" not in fsets:
         # quick tier: the `checks` build of the three primitives is still analysed numerically (its argument assertion computes a
         # mask the default build does not have)
